@@ -1,7 +1,8 @@
 (* C20 — input files are read and placed on the detector faithfully.
    Only statements here; proofs live in Proofs/Placement*.v.  Gen_C20 is regenerated on every run from
    pyxel/util/image.py (Alignment, _set_relative_position, the decorator and parameter list of
-   load_cropped_and_aligned_image) and pyxel/inputs/loader.py (the separators load_image tries). *)
+   load_cropped_and_aligned_image), pyxel/inputs/loader.py (the separators load_image tries), everything in these
+   files that could keep state between two calls, and the call sites of the two loading models. *)
 From Coq Require Import ZArith List Bool Lia ZifyBool String.
 From PyxelV Require Import Model.Placement Model.Memo Model.Delim.
 From PyxelV Require Import Proofs.Placement Proofs.PlacementMemo Proofs.PlacementDelim.
@@ -104,43 +105,79 @@ Proof. vm_compute. auto. Qed.
 
 (* ------------------------------------------------------------------ freshness of loaded content *)
 
-(* FULL statement: in every history of file writes and loads in one process, every load returns what
-   the file holds at that moment *)
-Definition C20_fresh_content_full : Prop :=
+(* nothing in the loading code keeps content from one call to the next: load_cropped_and_aligned_image is not
+   memoised (any more: C20-F15, repaired), no function of pyxel/inputs/loader.py, pyxel/util/image.py and the two
+   loading models carries a caching decorator, a mutable default or a function attribute, and no function stores
+   into a module-level container — as the source says now *)
+Theorem C20_loaders_keep_no_state : src_memoised = false /\ src_loader_state = [].
+Proof. split; reflexivity. Qed.
+Print Assumptions C20_loaders_keep_no_state.
+
+(* FULL statement: in EVERY history of file writes and loads in one process — through the placing loader
+   (Load) and through the direct loaders (LoadRaw) — every load returns what the file holds at that moment *)
+Theorem C20_fresh_content :
   forall h, run (fit_of src_align src_align_names) src_memoised src_memo_maxsize src_memo_key mstate0 h
             = fresh_run (fit_of src_align src_align_names) [] h.
+Proof. intros h. change src_memoised with false. apply unmemoised_fresh. Qed.
+Print Assumptions C20_fresh_content.
+
+(* ... and what it returns is what the SPECIFICATION of the placement says about that content: for every
+   well-formed history (written arrays are rectangular, detector shapes have non-negative sides), the loads of the
+   code as it is equal, one by one, the specified placement (spec_fit) of the file's current content *)
+Theorem C20_loads_place_current_content :
+  forall h, wf_history h = true ->
+    run (fit_of src_align src_align_names) src_memoised src_memo_maxsize src_memo_key mstate0 h
+    = fresh_run spec_fit_of [] h.
+Proof.
+  intros h W. rewrite C20_fresh_content. apply fresh_run_meets_spec; try assumption.
+  - intros. apply C20_alignment.
+  - apply C20_keywords.
+  - intros p c [=].
+Qed.
+Print Assumptions C20_loads_place_current_content.
+
+(* the two loading models ask for exactly the detector's (rows, cols), their own file, position = (y, x) and align
+   parameters, accept smaller inputs, scale by time_step / time_scale (times multiplier for photons) and ADD the result
+   to their bucket — as their call sites say now *)
+Theorem C20_models_pass_arguments :
+  forall rows cols file pos align,
+    let want := {| q_shape := (rows, cols); q_file := file; q_px := snd pos; q_py := fst pos;
+                   q_align := align; q_allow := true |} in
+    model_request src_photon_call rows cols file pos align = want
+    /\ model_request src_charge_call rows cols file pos align = want
+    /\ (mc_file src_photon_call && mc_align src_photon_call && mc_adds src_photon_call
+        && mc_file src_charge_call && mc_align src_charge_call && mc_adds src_charge_call = true)
+    /\ mc_factor src_photon_call = (1, -1, 1) /\ mc_factor src_charge_call = (1, -1, 0).
+Proof. intros rows cols file [py px] align. repeat split; reflexivity. Qed.
+Print Assumptions C20_models_pass_arguments.
 
 Definition stale_witness : list event :=
   let q := {| q_shape := (1, 1); q_file := "f.npy"%string; q_px := 0; q_py := 0;
               q_align := None; q_allow := true |} in
   [Write "f.npy"%string (1, 1, [[1]]); Load q; Write "f.npy"%string (1, 1, [[2]]); Load q].
 
-(* refuted by the code as it is: the lru_cache key is the argument list; the file's content or
-   version is not part of it *)
-Theorem C20_fresh_content_refuted : ~ C20_fresh_content_full.
-Proof. intros H. specialize (H stale_witness). vm_compute in H. discriminate H. Qed.
-Print Assumptions C20_fresh_content_refuted.
+(* why the memoisation had to go (and must not come back in this form): whatever fields of the ARGUMENTS form
+   the key and whatever the cache size, a file rewritten between two identical requests is served stale *)
+Theorem C20_memo_on_arguments_goes_stale :
+  forall kf maxsize, (1 <= maxsize)%nat ->
+    run (fit_of src_align src_align_names) true maxsize kf mstate0 stale_witness
+    <> fresh_run (fit_of src_align src_align_names) [] stale_witness.
+Proof.
+  intros kf maxsize M.
+  apply (memo_on_arguments_stale (fit_of src_align src_align_names) maxsize kf "f.npy"%string
+           (1, 1, [[1]]) (1, 1, [[2]]) _ [[1]] [[2]] M); try reflexivity. discriminate.
+Qed.
+Print Assumptions C20_memo_on_arguments_goes_stale.
 
-(* strongest true restriction: as long as no file is written again after it has been loaded, every
-   load is fresh — for ALL histories, whatever is loaded, any cache size (evictions included) *)
-Theorem C20_fresh_content_partial :
-  forall fitf h, no_rewrite [] h = true ->
-    run fitf true src_memo_maxsize src_memo_key mstate0 h = fresh_run fitf [] h.
-Proof. intros. apply memo_fresh_from_start; [vm_compute; reflexivity|assumption]. Qed.
-Print Assumptions C20_fresh_content_partial.
-
-(* and a loader that is not memoised is always fresh (what a repair has to establish) *)
-Theorem C20_fresh_content_unmemoised :
-  forall fitf maxsize kf h, run fitf false maxsize kf mstate0 h = fresh_run fitf [] h.
-Proof. intros. apply unmemoised_fresh. Qed.
-Print Assumptions C20_fresh_content_unmemoised.
-
-Example C20_fresh_partial_nonvacuous :
-  no_rewrite [] [Write "a"%string (1, 1, [[1]]); Write "a"%string (1, 1, [[2]]);
-                 Load {| q_shape := (1, 1); q_file := "a"%string; q_px := 0; q_py := 0;
-                         q_align := None; q_allow := true |};
-                 Write "b"%string (1, 1, [[3]])] = true
-  /\ no_rewrite [] stale_witness = false.
+Example C20_fresh_content_nonvacuous :
+  wf_history stale_witness = true
+  /\ fresh_run spec_fit_of [] stale_witness = [Some [[1]]; Some [[2]]]
+  /\ wf_history [Write "a.fits"%string (2, 1, [[3]; [4]]); LoadRaw "a.fits"%string;
+                 Load {| q_shape := (1, 2); q_file := "a.fits"%string; q_px := 1; q_py := -1;
+                         q_align := None; q_allow := true |}] = true
+  /\ fresh_run spec_fit_of [] [Write "a.fits"%string (2, 1, [[3]; [4]]); LoadRaw "a.fits"%string;
+                 Load {| q_shape := (1, 2); q_file := "a.fits"%string; q_px := 1; q_py := -1;
+                         q_align := None; q_allow := true |}] = [Some [[3]; [4]]; Some [[0; 4]]].
 Proof. vm_compute. auto. Qed.
 
 (* ------------------------------------------------------------------ delimiter detection *)
@@ -156,6 +193,71 @@ Print Assumptions C20_delimiter.
 Theorem C20_delimiter_all_five : forall d, In d src_delims.
 Proof. intros d. destruct d; vm_compute; tauto. Qed.
 Print Assumptions C20_delimiter_all_five.
+
+(* --- the separator decision (which separator wins for which texts), for the regenerated list *)
+
+(* the decision never changes WHAT is read: a text accepted under any separator is read as the numbers of its
+   non-blank lines, in order — the separators only decide WHETHER it is accepted *)
+Theorem C20_delimiter_reads_the_numbers :
+  forall ls t, detect src_delims ls = Some t -> t = numbers_of ls.
+Proof. intros ls t. apply detect_numbers. Qed.
+Print Assumptions C20_delimiter_reads_the_numbers.
+
+(* priority: the first separator of the source's list under which the whole text parses decides *)
+Theorem C20_delimiter_priority :
+  forall ls, detect src_delims ls = match winner src_delims ls with Some d => try_parse d ls | None => None end.
+Proof. intros ls. apply detect_winner. Qed.
+Print Assumptions C20_delimiter_priority.
+
+(* ... and the order in which the separators are tried is irrelevant to the result (any list with the same
+   members gives the same answer on every text) *)
+Theorem C20_delimiter_order_irrelevant :
+  forall order ls, (forall d, In d order <-> In d src_delims) -> detect order ls = detect src_delims ls.
+Proof. intros order ls H. apply detect_order_irrelevant. exact H. Qed.
+Print Assumptions C20_delimiter_order_irrelevant.
+
+(* what a separator d needs to accept a line: d occurs exactly (columns - 1) times, every other separator
+   character of the line is a blank, and the row read is the line's numbers *)
+Theorem C20_delimiter_accepts_only :
+  forall d l row, parse_line d l = Some row ->
+    S (count_sep d l) = List.length row /\ others_blank d l = true /\ row = nums_of l.
+Proof.
+  intros d l row H. destruct (parse_line_needs d l row H) as [A B].
+  repeat split; try assumption. apply (parse_line_nums d l row H).
+Qed.
+Print Assumptions C20_delimiter_accepts_only.
+
+(* regular texts — the same run of separator characters (a "gap": ", " or " | " or tab + blank ...) between every
+   two neighbours: a rectangular table is read back unchanged iff some separator of the list reads the gap (occurs
+   once in it, the rest blanks); with two or more columns it is refused otherwise *)
+Theorem C20_delimiter_gap :
+  forall g t, rectangular t = true -> existsb (fun d => gap_ok d g) src_delims = true ->
+    detect src_delims (render_gap g t) = Some t.
+Proof.
+  intros g t R E. apply existsb_exists in E. destruct E as [d [Hin G]]. apply (detect_gap src_delims g t d Hin G R).
+Qed.
+Print Assumptions C20_delimiter_gap.
+
+Theorem C20_delimiter_gap_refused :
+  forall g x y r t, existsb (fun d => gap_ok d g) src_delims = false ->
+    detect src_delims (render_gap g ((x :: y :: r) :: t)) = None.
+Proof.
+  intros g x y r t E. apply detect_gap_refused. intros d Hin.
+  destruct (gap_ok d g) eqn:G; [|reflexivity]. exfalso.
+  assert (X : existsb (fun d => gap_ok d g) src_delims = true) by (apply existsb_exists; exists d; auto). congruence.
+Qed.
+Print Assumptions C20_delimiter_gap_refused.
+
+(* the decision table for some gaps: ", " and " | " and tab + blank are read; two blanks, ",;" and ", ," are not *)
+Example C20_delimiter_gap_table :
+  map (fun g => filter (fun d => gap_ok d g) src_delims)
+      [[DComma; DSpace]; [DSpace; DBar; DSpace]; [DTab; DSpace]; [DSpace; DSpace]; [DComma; DSemicolon];
+       [DComma; DSpace; DComma]; [DSemicolon]]
+  = [[DComma]; [DBar]; [DTab; DSpace]; []; []; []; [DSemicolon]]
+  /\ detect src_delims (render_gap [DComma; DSpace] [[1; 2]; [3; 4]]) = Some [[1; 2]; [3; 4]]
+  /\ detect src_delims (render_gap [DSpace; DSpace] [[1; 2]; [3; 4]]) = None
+  /\ winner src_delims (render_gap [DTab; DSpace] [[1; 2]]) = Some DTab.
+Proof. vm_compute. auto. Qed.
 
 Example C20_delimiter_example :
   detect src_delims (render DBar [[1; -2]; [3; 4]]) = Some [[1; -2]; [3; 4]]
